@@ -26,7 +26,7 @@ TARGETS2 = {"S": "s <<= {e}", "O": "self.o <<= {e}", "V": "v @= {e}", "P": "self
             "PP": "self.p.push = {e}", "PN": "self.pn ^= {e}"}
 TARGETS1 = {"PN0": "self.pn[0] ^= {e}", "S0": "s[0] <<= {e}", "M": "mem[self.b] <<= {e}", "M1": "mem[1] <<= {e}", "S10": "s[1:0][1] <<= {e}"}
 EXPR2 = {"a": "self.a", "s": "s", "v": "v", "s1": "s + 1", "v1": "v + 1", "o": "self.o", "k2": "2", "fa": "pick(self.a)", "fs": "pick(s)",
-         "ie": "(self.a if self.c else s)"}
+         "ie": "(self.a if self.c else s)", "ga": "pick2(self.a)", "gs": "pick2(s)", "ha": "pick3(self.a)"}
 EXPR1 = {"c": "self.c", "s0": "s[0]", "mb": "mem[self.b]", "a1": "self.a[1]", "v0": "v[0]"}
 CONDS = {"c": "self.c", "s0": "s[0]", "v0": "v[0]", "mb": "mem[self.b]", "ae": "self.a == 2", "cmp": "v < self.a"}
 ALW = {"a": "self.a", "s": "s", "sa": "s ^ self.a", "s1": "s + 1"}
@@ -63,6 +63,13 @@ def ev2(e, st, inp):
         return st["s"] if c else (st["s"] + 1) & M2
     if e == "ie":
         return a if c else st["s"]
+    if e == "ga":
+        return a if c else (a + 1) & M2
+    if e == "gs":
+        return st["s"] if c else (st["s"] + 1) & M2
+    if e == "ha":
+        # pick3: match on a with early returns in some arms, fall-through to a trailing return
+        return 3 if a == 0 else (2 if a == 1 else (a + 1) & M2)
     if e == "sa":
         return st["s"] ^ a
     raise KeyError(e)
@@ -269,6 +276,11 @@ def render(prog, reset=None, entity="T", locals_in_body=False, c04=False, on_res
     L += ["    def architecture(self):",
           "        s = Signal[Unsigned[2]](0)", "        mem = Signal[Array[Bit, 2]]([False, False])", "        v = Variable[Unsigned[2]](0)",
           "        def pick(x):", "            if self.c:", "                return x", "            return x + 1",
+          "        def pick2(x):", "            if self.c:", "                pass", "            else:", "                return x + 1",
+          "            return x",
+          "        def pick3(x):", "            match x:", "                case 0:", "                    return Unsigned[2](3)",
+          "                case 1:", "                    return ~x", "                case _:", "                    pass",
+          "            return x + 1",
           "        def first_set():", "            for i in range(2):", "                if self.a[i]:",
           "                    return Unsigned[2](i + 1)", "            return Unsigned[2](0)",
           "        @std.concurrent", "        def conc():", "            self.oc <<= s ^ self.a", "            self.os <<= s",
@@ -339,7 +351,7 @@ def atoms(level):
     """level 0: core atoms; 1: all"""
     if level == 0:
         t2 = [("S", "a"), ("S", "s1"), ("S", "v"), ("O", "s"), ("O", "v"), ("O", "a"), ("V", "v1"), ("V", "a"), ("V", "s"), ("P", "a"),
-              ("P", "v"), ("S", "fa"), ("O", "ie"), ("PN", "a")]
+              ("P", "v"), ("S", "fa"), ("O", "ie"), ("PN", "a"), ("O", "ga"), ("S", "gs"), ("O", "ha")]
         t1 = [("S0", "c"), ("M", "c"), ("M1", "s0"), ("S0", "mb"), ("PN0", "c")]
     else:
         t2 = [(t, e) for t in TARGETS2 for e in EXPR2]
